@@ -64,8 +64,25 @@ def render_gro(rng, n):
     return texts
 
 
+EXTXYZ_EXPECT = {}       # frame text -> per-atom extra columns the frame must come back with (independent of any load)
+
+
 def render_extxyz(rng, n):
     texts = []
+    if rng.random() < 0.4:
+        # every frame carries the very same title line; what differs are the per-atom columns, two of which go to `extra`
+        natom = rng.randint(1, 4)
+        for k in range(n):
+            lines = [str(natom), 'Properties=species:S:1:pos:R:3:tag:I:1:q:R:1 pbc="F F F"']
+            tags, qs = [], []
+            for i in range(natom):
+                tags.append(10 * k + i)
+                qs.append(round(0.25 * k - 0.125 * i, 4))
+                lines.append(f"{['H', 'O', 'C', 'N'][(i + k) % 4]} {0.5 * i + k:12.6f} {-0.25 * i:12.6f} {0.125 * k:12.6f} {tags[-1]:5d} {qs[-1]:10.4f}")
+            text = "\n".join(lines) + "\n"
+            EXTXYZ_EXPECT[text] = {"tag": tags, "q": qs}
+            texts.append(text)
+        return texts
     for k in range(n):
         natom = rng.randint(1, 5)
         # frames of one trajectory may declare different per-atom columns: species only, or species next to atomic numbers (Z)
@@ -294,6 +311,9 @@ def load_exec(task):
                                 same = n <= len(task["expect"]) and fchk_frame_same(data, task["expect"][n - 1], task["irc"])
                             else:
                                 same = n <= len(task["singles"]) and digest(data) == task["singles"][n - 1]
+                                want = task.get("expect_extra", [None] * n)[n - 1] if n <= len(task.get("expect_extra", [])) else None
+                                if want is not None:   # values known from the renderer: a leak between frames cannot hide behind the single loads
+                                    same = same and all(np.array_equal(np.asarray((data.extra or {}).get(k)).ravel(), np.asarray(v)) for k, v in want.items())
                             tr.log({"ev": "yield", "i": n, "same": bool(same), "valid": not consistent(data)})
                             if task["discard"] == n:
                                 gen.close()
@@ -383,9 +403,11 @@ def build_sequence(args):
         singles = [single_digest(fmt, t) for t in texts]
         cw = CUT_WARNS.get(fmt, False)
 
+        expect_extra = [EXTXYZ_EXPECT.get(t) for t in texts] if fmt == "extxyz" else []
+
         def add(many, text, frames, note, discard=0, sing=None):
             tasks.append({"fmt": fmt, "many": many, "text": text, "frames": frames, "cutwarns": cw, "discard": discard,
-                          "singles": singles if sing is None else sing, "note": note})
+                          "singles": singles if sing is None else sing, "note": note, "expect_extra": expect_extra})
 
         add(True, full, ["ok"] * n, "full")
         add(True, full, ["ok"] * n, "iterator dropped before the first frame", discard=-1)
